@@ -1291,8 +1291,9 @@ class Context:
         """
         self._globals[name] = self._to_js(value)
 
-    def _to_python(self, value: JSValue) -> Any:
-        """Convert a JavaScript value to Python."""
+    def _to_python(self, value: JSValue, _seen: Optional[dict] = None) -> Any:
+        """Convert a JavaScript value to Python (a cyclic or shared array/object becomes
+        an equally cyclic or shared list/dict)."""
         if value is UNDEFINED:
             return None
         if value is NULL:
@@ -1303,10 +1304,21 @@ class Context:
             return value
         if isinstance(value, str):
             return value
-        if isinstance(value, JSArray):
-            return [self._to_python(elem) for elem in value._elements]
         if isinstance(value, JSObject):
-            return {k: self._to_python(v) for k, v in value._properties.items()}
+            if _seen is None:
+                _seen = {}
+            if id(value) in _seen:
+                return _seen[id(value)]
+            if isinstance(value, JSArray):
+                result: Any = []
+                _seen[id(value)] = result
+                result.extend(self._to_python(elem, _seen) for elem in value._elements)
+            else:
+                result = {}
+                _seen[id(value)] = result
+                for k, v in value._properties.items():
+                    result[k] = self._to_python(v, _seen)
+            return result
         return value
 
     def _to_js(self, value: Any) -> JSValue:
